@@ -144,7 +144,25 @@ fn check_duration(c: &Corpus, lay: &Layout, tf: &TimeField, base: &FieldMap, d: 
     let quotient = d.as_nanos() / (tf.unit as u128 * 1_000_000);
     let sigbase = format!("C15/{}/{}", tf.kind, tf.name);
     let replay = json!({"kind": tf.kind, "field": tf.name, "duration_ns": d.as_nanos().to_string(), "unit_ms": tf.unit});
-    match real_encode(&typed, true) {
+    // the configuration entry point for the one duration users set through the builder
+    let mut routes = vec![("", typed)];
+    if tf.kind == "ISI" {
+        if let Ok(isi) = guarded(|| insim::builder::Builder::new().isi_interval(d).isi()) {
+            routes.push(("/via-builder", Packet::Isi(isi)));
+        } else {
+            p.violation(format!("{sigbase}/via-builder/panic"), format!("Builder::isi_interval({:?}).isi() panicked", d), replay.clone());
+        }
+    }
+    for (route, typed) in routes {
+        let sigbase = format!("{sigbase}{route}");
+        let replay = replay.clone();
+        check_encoded_duration(&typed, tf, d, quotient, max, &sigbase, replay, p);
+    }
+}
+
+#[allow(clippy::too_many_arguments)]
+fn check_encoded_duration(typed: &Packet, tf: &TimeField, d: Duration, quotient: u128, max: u128, sigbase: &str, replay: serde_json::Value, p: &mut Part) {
+    match real_encode(typed, true) {
         Enc::Ok(f) => {
             let w = wire_at(&f, tf) as u128;
             if quotient > max {
